@@ -298,7 +298,11 @@ def fingerprints(prop):
         for line in out.splitlines():
             parts = line.split()
             if len(parts) == 3:
-                res[parts[0] + ":" + parts[1]] = parts[2]
+                # keyed by the path as recorded (under /repo) also when a scratch worktree is checked (VERIF_REPO)
+                f0 = parts[0]
+                if f0.startswith(REPO + "/"):
+                    f0 = f0[len(REPO) + 1:]
+                res[f0 + ":" + parts[1]] = parts[2]
     known_p = os.path.join(LEAN, "fingerprints", prop.id + ".json")
     known = json.load(open(known_p)) if os.path.exists(known_p) else {}
     return {k: ("ok" if known.get(k) == v else ("new:" + v[:12] if k not in known else "changed")) for k, v in res.items()}
